@@ -651,7 +651,7 @@ impl Check for C01 {
         CheckInfo {
             id: "C01",
             level: "fault_enumeration",
-            rule: "one case = a valid stored document (corpus incl. encrypted files opened with their passwords, and generated documents) + a sequence of at-rest storage faults applied before open (bit flip, byte set, truncation/EOF anywhere, 512-byte sector zeroed / duplicated / swapped, splice from another stored file, digit run replaced by a boundary number, junk prefix, token-aligned overwrite of a hexadecimal string or name token, a string token rewritten with another length with the classic cross-reference table shifted behind it) + for encrypted documents the password given (their user password, their owner password, the empty one, a wrong one) + {strict, tolerant} x {cached, uncached} x {2 MiB, 8 MiB stack}; the walker makes every read call (load, pages and inherited attributes, resources, fonts with widths / ToUnicode / embedded data, images raw and decoded, forms, content operators, functions and colour spaces, name and number trees, outlines, every object below /Size raw and typed, recovery scan), each under catch_unwind, under allocation / work meters, in a worker process whose death is observed. Enumerated part: every truncation point (quick: 3 small documents; thorough: all documents <= 4 KiB) and every single-bit flip (thorough), and for the encrypted corpus files every string token x 19 lengths x 4 passwords (both tiers). Non-trivial = the fault changed the outcome (Ok/Err pattern of the calls) relative to the unfaulted document; distinct = hash of (document, faults, configuration)",
+            rule: "one case = a valid stored document (corpus incl. encrypted files opened with their passwords, and generated documents) + a sequence of at-rest storage faults applied before open (bit flip, byte set, truncation/EOF anywhere, 512-byte sector zeroed / duplicated / swapped, splice from another stored file, digit run replaced by a boundary number, junk prefix, token-aligned overwrite of a hexadecimal string or name token, a string token rewritten with another length with the classic cross-reference table shifted behind it) + for encrypted documents the password given (their user password, their owner password, the empty one, a wrong one) + {strict, tolerant} x {cached, uncached} x {2 MiB, 8 MiB stack}; the walker makes every read call (load, pages and inherited attributes, resources, fonts with widths / ToUnicode / embedded data, images raw and decoded, forms, content operators, functions and colour spaces, name and number trees, outlines, every object below /Size raw and typed, recovery scan; when the document does not open, the recovery scan over the bare storage), each under catch_unwind, under allocation / work meters, in a worker process whose death is observed. Enumerated part: every truncation point (quick: 3 small documents; thorough: all documents <= 4 KiB) and every single-bit flip (thorough), and for the encrypted corpus files every string token x 19 lengths x 4 passwords (both tiers). Non-trivial = the fault changed the outcome (Ok/Err pattern of the calls) relative to the unfaulted document; distinct = hash of (document, faults, configuration)",
             assumptions: vec![
                 "covers 'valid file + storage faults', not all byte strings and not texts produced by a PDF grammar (the other half of the property's quantifier)".into(),
                 "resource bound: peak live bytes <= 64 MiB + 64 x (input + bytes produced by stream filters), allocation calls <= 2e6 + 2000 x the same, single request <= 256 MiB and live bytes <= 512 MiB (hard caps: the request is refused, the process aborts, the supervisor observes it), log events <= 1e6 + 1000 x input, 20 s wall clock per case as backstop".into(),
